@@ -22,7 +22,7 @@ STEMS = ['ax', 'axe', 'axis', 'bus', 'wolf', 'wife', 'kniv', 'box', 'quiz', 'chu
          's', 'es', 'men', 'ing', 'ed', 'er', 'est', 'big', 'bigg', 'late', 'lat', 'run', 'runn', 'go', 'goe', 'matrix', 'matri',
          'lemma', 'Geese', 'goose', '情報', 'x', 'ss']
 SUFF = ['s', 'ces', 'ses', 'ves', 'ives', 'xes', 'zes', 'ches', 'shes', 'men', 'ies', 'es', 'ed', 'ing', 'er', 'est']
-LPOS = ['n', 'v', 'a', 's', 'r', 'n', 'v']
+LPOS = ['n', 'v', 'a', 's', 'r', 'n', 'v', 'n', 'v', 't', 'c', 'p', 'x', 'u']
 QPOS = [None, 'n', 'v', 'a', 's', 'r', 't', 'x']
 
 
@@ -32,7 +32,7 @@ def plan(tier, seed):
 
 def gen(r):
     entries, words = [], []
-    synsets = [{'id': f'ss-{p}', 'ili': '', 'partOfSpeech': p, 'meta': None} for p in 'nvasr']
+    synsets = [{'id': f'ss-{p}', 'ili': '', 'partOfSpeech': p, 'meta': None} for p in 'nvasrtcpxu']
     for i in range(r.randint(4, 16)):
         pos = r.choice(LPOS)
         lemma = r.choice(STEMS) + (r.choice(SUFF) if r.random() < 0.25 else '')
